@@ -42,8 +42,22 @@ def run(ctx):
     for b in range(0, len(specs), B):
         out = rt.rtgen(ctx, specs[b:b + B], "b%d" % (b // B))
         vlib.validate_cases(ctx, "ParseTrace", "ParseTrace.cfg", out, label="batch%d" % (b // B), timeout=3300, **kw)
-    ctx.cov["programs"] = len(specs)
+    # extended notation with inline arrows at any depth (optionals, nested choices, lists with annotated elements)
+    def sigs(c):
+        t = c.get("tmtext", "")
+        return "sugar-events:" + " ".join(t[t.find("N0 ->"):t.find("%%")].split())[:240]
+    kws = dict(sig=sigs, sigv=lambda c, rec, v: v + ":" + sigs(c), rerun=None, input_keys=["tmtext", "rules"], observed_keys=["genErr", "runs"],
+               nontrivial=lambda c: c["genErr"] == "" and sum(len(r["events"]) for r in c["runs"]) >= 60)
+    ns = 600 if thorough else 150
+    for b in range(0, ns, 150):
+        outs = ctx.path("sugar%d.ndjson" % b)
+        ctx.vhrun(["c02s-gen", "150", ctx.path("smod%d" % b), outs], env_extra={"VERIF_SEED": str(ctx.seed * 100 + b // 150)}, timeout=3000)
+        vlib.run(["rm", "-rf", ctx.path("smod%d" % b)], check=False)
+        vlib.validate_cases(ctx, "C02sTrace", "C02sTrace.cfg", outs, label="sugar%d" % (b // 150), timeout=3300, **kws)
+    ctx.cov["programs"] = len(specs) + ns
     ctx.cov["rule"] = ("%d conflict-free grammars with a node arrow on every rule, generated event-based, run on all token strings <= %d; for every sentence of an eoi input "
                        "TLC compares the listener calls with the post-order events of the spec's denotation (ranges: first to last element, empty parts at the following token). "
-                       "Non-trivial: parsers that reported at least 3 nodes for some input." % (len(grammars), L))
+                       "Non-trivial: parsers that reported at least 3 nodes for some input. "
+                       "Plus %d random grammars in extended notation with inline '-> Node' clauses at any depth (optional parts, nested choices, lists with annotated "
+                       "elements, nullable annotated parts), 25 sentences each, listener calls compared with EventProv!Events (token provenance)." % (len(grammars), L, ns))
     ctx.assumptions += ["words with two different event lists in the denotation (ambiguous) are skipped", "rule-level arrows on plain rules here; nested arrows are exercised by the extended-notation checks"]
